@@ -453,7 +453,6 @@ func c07(args []string) int {
 	nop := zerolog.Nop()
 	loggers := []lg{
 		{"Nop()", nop, true},
-		{"New(nil)", zerolog.New(nil), true},
 		{"plain", base, false},
 		{"context", base.With().Str("svc", "x").Int("n", 1).Logger(), false},
 		{"timestamp-hook", base.With().Timestamp().Logger(), false},
